@@ -25,6 +25,9 @@ import glob, hashlib, os, re
 from rustscan import mask, Source, AnchorLost
 
 LIFTS = {
+    # nom::multi::count itself (not a use of it in /repo): the closure it returns, made a first-order function over
+    # (f, count, i) so that the TRUSTED specification of `count` in contracts/verus/nom_prims.rs becomes an obligation
+    "nom_count": {"kind": "nomfn", "file": "src/multi/mod.rs", "fn": "count", "name": "vf_nom_count"},
     "ipfix_sets": {
         "src": "expanded", "mod": "variable_versions::ipfix", "impl": r"impl<'nom> IPFix", "fn": "parse_be",
         "select": ("mapres", 0),
@@ -122,9 +125,56 @@ def mono(text, log):
     return text
 
 
+def build_nomfn(name, repo):
+    """nom combinator `pub fn NAME(mut f: F, <args>) -> impl FnMut(I) -> ..{ move |i: I| { BODY } }`  ->
+    `fn vf_NAME<'a, O, F: Fn(&'a [u8]) -> IResult<&'a [u8], O>>(f: F, <args>, i: &'a [u8]) -> IResult<&'a [u8], Vec<O>> { BODY }`
+    (closure conversion: the captured `f` and `count` become parameters).  Monomorphisation as in `mono`, plus
+    f.parse(X) -> f(X) (impl Parser for F: FnMut(I) -> IResult: `self(i)`), E::append(_, _, e) -> e (impl ParseError for
+    Error: `other`), `for _ in` -> `for _k in` (Verus has no wildcard loop pattern), crate::lib::std::mem -> core::mem."""
+    spec = LIFTS[name]
+    ver, nd = nom_dir(repo)
+    path = os.path.join(nd, spec["file"])
+    log = {}
+    p0, b0, raw0 = nom_closure_body(path, spec["fn"])
+    pm0 = re.match(r"(\w+)\s*:\s*I$", p0)
+    if not pm0:
+        raise AnchorLost("nom %s: closure parameter changed shape" % spec["fn"])
+    whole = open(path).read()
+    sig = re.search(r"pub fn %s<I, O, E, F>\(mut f: F, count: usize\) -> impl FnMut\(I\) -> IResult<I, Vec<O>, E>" % spec["fn"], whole)
+    if not sig:
+        raise AnchorLost("nom %s: signature changed shape" % spec["fn"])
+    b = mono(b0, log)
+    extra = [
+        (r"\bf\.parse\(", "f(", "f.parse(x)->f(x)", 1),
+        (r"\bE::append\(\s*\w+\s*,\s*nom::error::ErrorKind::\w+\s*,\s*(\w+)\s*\)", r"\1", "E::append(_,_,e)->e", 1),
+        (r"\bfor _ in\b", "for _k in", "for _->for _k", 1),
+        (r"crate::lib::std::mem::", "core::mem::", "mem path", None),
+    ]
+    for rx, rep, nm, want in extra:
+        b, n = re.subn(rx, rep, b)
+        if want is not None and n != want:
+            raise AnchorLost("nom %s text: expected %d x %s, found %d" % (spec["fn"], want, nm, n))
+        if n:
+            log[nm] = n
+    consts = ""
+    for c in sorted(set(re.findall(r"\b[A-Z][A-Z0-9_]{3,}\b", mask(b)))):
+        cm = re.search(r"^const %s: usize = [^;]+;" % c, whole, re.M)
+        if not cm:
+            raise AnchorLost("nom constant %s not found" % c)
+        consts += cm.group(0) + "\n"
+    out = ("// synthetic source built by tools/lift.py (build_nomfn) from nom-%s %s\n%s"
+           "fn %s<'a, O, F: Fn(&'a [u8]) -> nom::IResult<&'a [u8], O>>(f: F, count: usize, %s: &'a [u8]) -> nom::IResult<&'a [u8], Vec<O>> {%s}\n"
+           % (ver, spec["file"], consts, spec["name"], pm0.group(1), b))
+    meta = {"lift": name, "from": "nom-%s %s fn %s" % (ver, spec["file"], spec["fn"]), "nom_version": ver,
+            "nom_%s_sha256" % spec["fn"]: hashlib.sha256(raw0.encode()).hexdigest()[:16], "monomorphisation": log}
+    return out, meta
+
+
 def build(name, repo, expanded_text):
     """-> (synthetic source text, meta dict)"""
     spec = LIFTS[name]
+    if spec.get("kind") == "nomfn":
+        return build_nomfn(name, repo)
     s = Source(expanded_text, "expanded")
     rng = s.whole()
     for part in spec["mod"].split("::"):
@@ -226,6 +276,6 @@ def build(name, repo, expanded_text):
 
 if __name__ == "__main__":
     import sys
-    txt, meta = build(sys.argv[1], sys.argv[2], open(sys.argv[3]).read())
+    txt, meta = build(sys.argv[1], sys.argv[2], open(sys.argv[3]).read() if len(sys.argv) > 3 else "")
     print(txt)
     print(meta, file=sys.stderr)
